@@ -160,7 +160,7 @@ def check(P, rep):
         rep.floor('rotate_signers rotation effects', len(effs), 5)
         validity_checks(rep, g, N, effs, tagp)
         bookkeeping(rep, g, N, effs)
-        D = ('keccak', ('xdr', ('tuple', (('variant', 'types::CommandType', 'RotateSigners', ()), N))))
+        D = ('keccak', ('xdr', ('tuple', (('variant', 'CommandType', 'RotateSigners', ()), N))))
         pf = ProofFacts(g, proof, D)
         check_proof_ok(rep, 'C03.R3', g, pf, [(e.node, e.describe(), esite(g, e)) for e in effs], lambda d: d.split('(')[0][:24])
         check_sig_loop(rep, 'C03.R3', g, pf)
